@@ -53,6 +53,7 @@ type oracleEvent struct {
 type oracleFunc func(it *Interp, s *State, args []AV) [][]AV
 
 type State struct {
+	rel    map[string]uint8 // Interp.Terms: what earlier undecided comparisons on this path established between two terms (bit 1: <, 2: ==, 4: >)
 	notes  map[string]AV // values a multi-step rule keeps between steps
 	heap   map[int]AV
 	frames []*Frame
@@ -124,6 +125,8 @@ type Interp struct {
 	Precise     bool // byte-precise library models (interp_precise.go)
 	preciseKind map[int]string
 	curState  *State
+	MaxIter         int  // >0: bound on the iterations of a loop whose own condition is decided (default 5000)
+	TermLimit       int  // >0: a computed float whose term has more monomials than this becomes a plain unknown
 	GeneralPosition bool // two different free inputs are never equal (a stated restriction of the rule that sets it)
 	Intervals bool // propagate float intervals through arithmetic (interp_intervals.go)
 	NonNeg   map[int]bool // atoms known to be >= 0 (answers of distance oracles)
@@ -177,6 +180,12 @@ func (s *State) clone() *State {
 	}
 	n.trail = append([]trailEntry(nil), s.trail...)
 	n.events = append([]oracleEvent(nil), s.events...)
+	if s.rel != nil {
+		n.rel = make(map[string]uint8, len(s.rel))
+		for k, v := range s.rel {
+			n.rel[k] = v
+		}
+	}
 	if s.notes != nil {
 		n.notes = make(map[string]AV, len(s.notes))
 		for k, v := range s.notes {
@@ -655,7 +664,11 @@ func (it *Interp) jumpF(s *State, fr *Frame, to *ssa.BasicBlock, forked bool) {
 			fr.total = map[*ssa.BasicBlock]int{}
 		}
 		fr.total[to]++
-		if fr.total[to] > 5000 {
+		maxIter := 5000
+		if it.MaxIter > 0 {
+			maxIter = it.MaxIter
+		}
+		if fr.total[to] > maxIter {
 			it.truncate(s, "iteration bound")
 			it.stop("")
 		}
@@ -663,6 +676,29 @@ func (it *Interp) jumpF(s *State, fr *Frame, to *ssa.BasicBlock, forked bool) {
 	fr.prev = fr.block
 	fr.block = to
 	fr.pc = 0
+	// the phis of a block read their operands simultaneously on the edge taken
+	// (a swap "a, b = b, a" in a loop is two phis that name each other)
+	var vals []AV
+	nphi := 0
+	for _, in := range to.Instrs {
+		phi, ok := in.(*ssa.Phi)
+		if !ok {
+			break
+		}
+		var v AV = topOf(phi.Type(), true)
+		for i, pb := range to.Preds {
+			if pb == fr.prev {
+				v = it.val(fr, phi.Edges[i])
+				break
+			}
+		}
+		vals = append(vals, v)
+		nphi++
+	}
+	for i := 0; i < nphi; i++ {
+		fr.env[to.Instrs[i].(*ssa.Phi)] = vals[i]
+	}
+	fr.pc = nphi
 }
 
 // factOf: the float comparison behind a branch condition, as terms.
@@ -769,11 +805,13 @@ func (it *Interp) exec(s *State, fr *Frame, in ssa.Instruction) {
 			o := s.clone()
 			ofr := o.top()
 			o.trail = append(o.trail, trailEntry{Pos: it.p.InstrPos(x), Desc: it.branchDesc(x, x.Cond, false), Opq: c.Opq, Der: c.Der, Fact: it.factOf(fr, x.Cond, false)})
+			it.recordRel(o, o.trail[len(o.trail)-1].Fact)
 			it.refine(o, ofr, x.Cond, false)
 			if it.tryJump(o, ofr, fr.block.Succs[1]) {
 				it.work = append(it.work, o)
 			}
 			s.trail = append(s.trail, trailEntry{Pos: it.p.InstrPos(x), Desc: it.branchDesc(x, x.Cond, true), Opq: c.Opq, Der: c.Der, Fact: it.factOf(fr, x.Cond, true)})
+			it.recordRel(s, s.trail[len(s.trail)-1].Fact)
 			it.refine(s, fr, x.Cond, true)
 			it.jumpF(s, fr, fr.block.Succs[0], true)
 			return
@@ -1343,6 +1381,13 @@ func (it *Interp) binop(s *State, fr *Frame, x *ssa.BinOp, a, b AV) AV {
 				}
 			}
 		}
+		if it.Terms && isCmp && s.rel != nil {
+			if ta, tb := it.termOf(av), it.termOf(bv); ta != nil && tb != nil {
+				if r, ok := relDecide(s, x.Op.String(), ta, tb); ok {
+					return boolOf(r)
+				}
+			}
+		}
 		if it.GeneralPosition && (x.Op == token.EQL || x.Op == token.NEQ) && av.Input && bv.Input && av.Sym > 0 && bv.Sym > 0 && av.Sym != bv.Sym && av.Term == nil && bv.Term == nil {
 			return boolOf(x.Op == token.NEQ)
 		}
@@ -1391,6 +1436,9 @@ func (it *Interp) binop(s *State, fr *Frame, x *ssa.BinOp, a, b AV) AV {
 				}
 			}
 			it.intervalArith(s, x.Op, av, bv, r)
+			if it.TermLimit > 0 && r.Term != nil && len(r.Term.N)+len(r.Term.D) > it.TermLimit {
+				r.Term = nil
+			}
 			return r
 		}
 		it.nextSym++
@@ -1403,6 +1451,9 @@ func (it *Interp) binop(s *State, fr *Frame, x *ssa.BinOp, a, b AV) AV {
 				r.Term = termDiv(ta, tb)
 			}
 			it.intervalArith(s, x.Op, av, bv, r)
+			if it.TermLimit > 0 && r.Term != nil && len(r.Term.N)+len(r.Term.D) > it.TermLimit {
+				r.Term = nil
+			}
 		}
 		return r
 	case BoolV:
@@ -1481,7 +1532,25 @@ func (it *Interp) binop(s *State, fr *Frame, x *ssa.BinOp, a, b AV) AV {
 				r = boolOf(eq)
 			} else {
 				r = BoolV{T: true, F: true, Opq: opq}
-				if it.Terms {
+				if it.GeneralPosition {
+					// two points made of different free inputs are different points
+					if pa, ok1 := a.(ArrV); ok1 {
+						if pb, ok2 := b.(ArrV); ok2 && len(pa.Elems) == len(pb.Elems) && len(pa.Elems) > 0 {
+							differ := false
+							for i := range pa.Elems {
+								fa, ok1 := pa.Elems[i].(FloatV)
+								fb, ok2 := pb.Elems[i].(FloatV)
+								if ok1 && ok2 && fa.Input && fb.Input && fa.Sym > 0 && fb.Sym > 0 && fa.Sym != fb.Sym && fa.Term == nil && fb.Term == nil {
+									differ = true
+								}
+							}
+							if differ {
+								r = boolOf(false)
+							}
+						}
+					}
+				}
+				if it.Terms && r.T && r.F {
 					if pa, ok1 := a.(ArrV); ok1 {
 						if pb, ok2 := b.(ArrV); ok2 && len(pa.Elems) == len(pb.Elems) && len(pa.Elems) > 0 {
 							all := true
